@@ -183,8 +183,12 @@ def plan(ctx):
         for c in sel:
             items.append((c, (1, 1, 1, 2, 1), 60000))
     else:
+        # every configuration at the quick bounds, the fixed-part configurations (see is_must) one level deeper
+        def is_must(c):
+            return c["script"] in ("exhaust", "prompt") or (
+                c["pre_dispatch"] == "all" and c["n_jobs"] == 2 and c["batch_size"] == 1 and c.get("abort", "drop") == "drop")
         for c in configs:
-            items.append((c, (1, 1, 2, 3, 2), 400000))
+            items.append((c, (1, 1, 2, 3, 2) if is_must(c) else (1, 1, 1, 2, 1), 400000))
     items.sort(key=lambda it: -len(to_scenario(it[0])["program"]))
     return PC.shard_items(items, lambda it: len(to_scenario(it[0])["program"]), 5 if quick else 2, nshards=4)
 
